@@ -129,6 +129,7 @@ MUTANTS = [
     ('C12', 'starttls-leak', (R, SOCKETS, "        if sock in self.__starttls:\n            self.__starttls.remove(sock)\n", ""), 'C12.c'),
     # ---- C13
     ('C13', 'revert-firstline', ('revert', 'f73bdf8'), 'C13'),
+    ('C13', 'revert-last-chunk-wait', ('revert', '0faf553'), 'C13.b'),
     ('C13', 'chunked-not-awaited', (R, HTTP, "        if (clen or req.headers.get('Transfer-Encoding') == 'chunked') and not parser.is_message_complete():\n            return None\n",
                                     "        if clen and not parser.is_message_complete():\n            return None\n"), 'C13.c'),
     ('C13', 'parser-kept-after-request', (R, HTTP, "        req.body = BytesIO(parser.recv_body())\n        del self._buffers[sock]\n", "        req.body = BytesIO(parser.recv_body())\n"), 'C13.d'),
